@@ -163,3 +163,37 @@ ENTRIES += [
     M("C09-sample-replace", "C09", "C09.2", (RB, "indices = jr.choice(key, total, shape=(batch_size,), replace=False)", "indices = jr.choice(key, total, shape=(batch_size,), replace=True)")),
     V("C09-v-trim-floor", "C09", (BB, "total_trim = total - (total % batch_size)", "total_trim = (total // batch_size) * batch_size")),
 ]
+
+LCB = "lerax/callback/logging/callback.py"
+BEN = "lerax/benchmark/__init__.py"
+
+ENTRIES += [
+    # ---------------------------------------------------------------- C19
+    M("C19-ret-noreset", "C19", "C19.1", (LCB, "            self.episode_return * (1.0 - self.episode_done.astype(float)) + reward", "            self.episode_return + reward")),
+    M("C19-select-prevdone", "C19", "C19.1", (LCB, "        average_return = lax.select(\n            done,", "        average_return = lax.select(\n            self.episode_done,")),
+    M("C19-alpha-swapped", "C19", "C19.1", (LCB, "            alpha * episode_return + (1.0 - alpha) * self.average_return,", "            (1.0 - alpha) * episode_return + alpha * self.average_return,")),
+    M("C19-len-plus-reward", "C19", "C19.1", (LCB, "self.episode_length * (1 - self.episode_done.astype(int)) + 1", "self.episode_length * (1 - self.episode_done.astype(int)) + 2")),
+    M("C19-avg-len-from-ret", "C19", "C19.1", (LCB, "            alpha * episode_length.astype(float) + (1.0 - alpha) * self.average_length,", "            alpha * episode_return + (1.0 - alpha) * self.average_length,")),
+    M("C19-ctor-swap", "C19", "C19.1", (LCB, "            episode_return,\n            episode_length,\n            done,\n            average_return,\n            average_length,\n        )", "            episode_return,\n            episode_length,\n            done,\n            average_length,\n            average_return,\n        )")),
+    M("C19-done-old", "C19", "C19.1", (LCB, "            episode_return,\n            episode_length,\n            done,\n            average_return,", "            episode_return,\n            episode_length,\n            self.episode_done,\n            average_return,")),
+    M("C19-onstep-swap", "C19", "C19.2", (LCB, "return ctx.state.next(ctx.reward, ctx.done, self.alpha)", "return ctx.state.next(ctx.done, ctx.reward, self.alpha)")),
+    M("C19-ctx-boot-reward", "C19", "C19.3", (ONP, "state.callback_state, env, policy, done, reward, locals()", "state.callback_state, env, policy, done, bootstrapped_reward, locals()")),
+    M("C19-ctx-swap", "C19", "C19.3", (OFP, "StepContext(state.callback_state, env, policy, done, reward, locals())", "StepContext(state.callback_state, env, policy, reward, done, locals())")),
+    M("C19-ctx-done-term", "C19", "C19.3", (OFP, "StepContext(state.callback_state, env, policy, done, reward, locals())", "StepContext(state.callback_state, env, policy, termination, reward, locals())")),
+    M("C19-sum-returns", "C19", "C19.4", (LCB, 'scalars["episode/return"] = step_state.average_return.mean()', 'scalars["episode/return"] = step_state.average_return.sum()')),
+    M("C19-step-mean", "C19", "C19.4", (LCB, "last_step = step_state.step.sum()", "last_step = step_state.step.max()")),
+    M("C19-unordered", "C19", "C19.4", (LCB, "callback_with_numpy_wrapper(b.log_scalars, ordered=True)(scalars, last_step)", "callback_with_numpy_wrapper(b.log_scalars, ordered=False)(scalars, last_step)")),
+    M("C19-wrapper-drops-ordered", "C19", "C19.4", (UT, "            _callback, *args, ordered=ordered, partitioned=partitioned, **kwargs", "            _callback, *args, ordered=False, partitioned=partitioned, **kwargs")),
+    M("C19-scan-keeps-adding", "C19", "C19.5", (BEN, "            return (env_state, policy_state, jnp.array(True)), jnp.array(0.0)\n\n        return jax.lax.cond(done, done_step, next_step)", "            return next_step()\n\n        return jax.lax.cond(done, done_step, next_step)")),
+    M("C19-scan-done-and", "C19", "C19.5", (BEN, "            done = env.terminal(next_env_state, key=terminal_key) | env.truncate(", "            done = env.terminal(next_env_state, key=terminal_key) & env.truncate(")),
+    M("C19-scan-branches-swapped", "C19", "C19.5", (BEN, "return jax.lax.cond(done, done_step, next_step)", "return jax.lax.cond(done, next_step, done_step)")),
+    M("C19-while-term-only", "C19", "C19.5", (BEN, "return ~(env.terminal(env_state, key=key) | env.truncate(env_state))", "return ~env.terminal(env_state, key=key)")),
+    M("C19-avg-sum", "C19", "C19.5", (BEN, "    rewards = jax.vmap(episode_reward)(jr.split(key, num_episodes))\n    return jnp.mean(rewards)", "    rewards = jax.vmap(episode_reward)(jr.split(key, num_episodes))\n    return jnp.sum(rewards)")),
+    M("C19-det-with-key", "C19", "C19.5", (BEN, "            if deterministic:\n                next_policy_state, action = policy(policy_state, obs)\n            else:\n                next_policy_state, action = policy(policy_state, obs, key=action_key)\n\n            next_env_state = env.transition(env_state, action, key=transition_key)\n            reward = env.reward(env_state, action, next_env_state, key=carry_key)\n            done",
+       "            if not deterministic:\n                next_policy_state, action = policy(policy_state, obs)\n            else:\n                next_policy_state, action = policy(policy_state, obs, key=action_key)\n\n            next_env_state = env.transition(env_state, action, key=transition_key)\n            reward = env.reward(env_state, action, next_env_state, key=carry_key)\n            done")),
+    M("C19-scan-discounted", "C19", "C19.5", (BEN, "    return jnp.sum(rewards)", "    return jnp.sum(rewards * 0.99 ** jnp.arange(max_steps))")),
+    V("C19-v-where-ret", "C19", (LCB, "            self.episode_return * (1.0 - self.episode_done.astype(float)) + reward", "            jnp.where(self.episode_done, reward, self.episode_return + reward)")),
+    V("C19-v-avg-mult", "C19", (LCB, "        average_return = lax.select(\n            done,\n            alpha * episode_return + (1.0 - alpha) * self.average_return,\n            self.average_return,\n        )",
+       "        average_return = self.average_return + done.astype(float) * alpha * (episode_return - self.average_return)")),
+    V("C19-v-scan-where", "C19", (BEN, "return ~(env.terminal(env_state, key=key) | env.truncate(env_state))", "return ~env.terminal(env_state, key=key) & ~env.truncate(env_state)")),
+]
